@@ -283,6 +283,28 @@ Proof.
   split; [apply GenEqNir.gen_check_examples|apply GenEqNir.gen_check_examples].
 Qed.
 
+(* For ALL WELL-FORMED Python netlists — cell outputs are not the constant nets and are listed once, signals hold
+   late / constant / cell-output nets, every late net is connected (wf_struct), every comb edge stays inside the netlist
+   (wf_netlist), every cell's width / comb_edges_to are defined on its own output bits (cells_defined) — the Error
+   alternative above is NOT taken: the translated search raises no IndexError / KeyError / AssertionError (busy.remove
+   always finds its net, `assert extra_net not in checked` and `assert traverse(net) is None` never fail), does not run
+   out of the model's fuel, and ends exactly like the model: returns, or raises CombinationalCycle with the same path.
+   (The harness checks wf_struct / wf_netlist on every netlist the real emitter produces and runs the translated
+   function on each of them.) *)
+From V.Proofs Require GenEqNirSafe.
+Theorem C06_translated_check_comb_cycles_wf : forall cells conn signals, Forall GenEqNir.py_ok cells ->
+  let g := Netlist (map GenEqNir.alpha cells) conn (map snd signals) in
+  wf_struct g = true -> wf_netlist g = true -> GenEqNirSafe.cells_defined cells = true ->
+  let r := NirGen.check_comb_cycles cells (map (fun p => (NL (fst p), snd p)) conn) signals (S (length (all_nets g))) in
+  r = GenEqNir.result_of_verdict (check_cycles g) /\ r <> NirGen.Error /\ r <> NirGen.Fuel.
+Proof. exact GenEqNirSafe.gen_check_comb_cycles_wf. Qed.
+Print Assumptions C06_translated_check_comb_cycles_wf.
+Example C06_translated_check_comb_cycles_wf_ex :
+  let g := Netlist (map GenEqNir.alpha GenEqNir.py_sibling) GenEqNir.conn2 [[NL 2; NL 1]] in
+  wf_struct g = true /\ wf_netlist g = true /\ GenEqNirSafe.cells_defined GenEqNir.py_sibling = true
+  /\ GenEqNirSafe.cells_defined GenEqNir.py_mux = true.
+Proof. vm_compute. repeat split. Qed.
+
 (* class Net over the raw Python integers agrees with the abstract nets NC cell bit / NL late used everywhere
    else, through the encoding (cell << 16) | bit, negative = late; guard net_ok: bit < 2^16, late index >= 1. *)
 Theorem C06_translated_Net : forall n, GenEqNir.net_ok n ->
